@@ -185,9 +185,11 @@ func (rm *RegistrationManager) ingestRegistration(reg *DecoyRegistration) {
 		rm.addDNSResolution()
 	}
 	if covert == "" {
-		// We log client IPs for clients attempting to connect to
-		// blocklisted covert addresses.
-		logger.Infof("Dropping reg, malformed or blocklisted covert: %v, %s -> %s", reg.IDString(), reg.GetRegistrationAddress(), reg.Covert)
+		// The registrant's address is only logged at debug level: at the
+		// default level nothing the station logs may identify a client
+		// unless client IP logging is enabled.
+		logger.Infof("Dropping reg, malformed or blocklisted covert: %v, %s", reg.IDString(), reg.Covert)
+		logger.Debugf("Dropped reg %v was registered by %s", reg.IDString(), reg.GetRegistrationAddress())
 		Stat().AddErrReg()
 		rm.AddErrReg()
 		return
